@@ -17,6 +17,7 @@ mod c12;
 mod c13;
 mod c15;
 mod c16;
+mod c17;
 mod gallina;
 mod impls;
 mod lab;
@@ -102,6 +103,7 @@ fn main() {
         "c13" => c13::run(&ctx),
         "c15" => c15::run(&ctx),
         "c16" => c16::run(&ctx),
+        "c17" => c17::run(&ctx),
         other => {
             eprintln!("unknown property {other}");
             std::process::exit(2);
